@@ -34,7 +34,14 @@ HAND = {
 }
 
 
+
 def shards(tier, seed):
+    from vf import engine
+
+    return engine.with_interpreter_options(_plain_shards(tier, seed), key="kind")
+
+
+def _plain_shards(tier, seed):
     from vf import campaign
 
     out = [{"kind": "hand", "span": 3000 if tier == "quick" else 70000}, {"kind": "py311", "span": 2000 if tier == "quick" else 20000},
